@@ -8,6 +8,7 @@ import sys
 
 from pyparsing import Literal
 from pyparsing import Keyword
+from pyparsing import And
 from pyparsing import Word
 from pyparsing import ZeroOrMore
 from pyparsing import Regex
@@ -848,6 +849,20 @@ def convert_specification(_s, _l, tokens):
     return merge_dicts(tokens)
 
 
+def MultiWordKeyword(words):
+    """A keyword made of several words, such as OCTET STRING. The words
+    are separate lexical items in X.680 and may be separated by any
+    white-space (and comments, which are replaced by white-space
+    before the grammar is applied). The result is a single token with
+    the words joined by one space.
+
+    """
+
+    return Combine(And([Keyword(word) for word in words.split()]),
+                   joinString=' ',
+                   adjacent=False)
+
+
 def create_grammar():
     """Return the ASN.1 grammar as Pyparsing objects.
 
@@ -867,8 +882,8 @@ def create_grammar():
     SIZE = Keyword('SIZE').setName('SIZE')
     INTEGER = Keyword('INTEGER').setName('INTEGER')
     REAL = Keyword('REAL').setName('REAL')
-    BIT_STRING = Keyword('BIT STRING').setName('BIT STRING')
-    OCTET_STRING = Keyword('OCTET STRING').setName('OCTET STRING')
+    BIT_STRING = MultiWordKeyword('BIT STRING').setName('BIT STRING')
+    OCTET_STRING = MultiWordKeyword('OCTET STRING').setName('OCTET STRING')
     DEFAULT = Keyword('DEFAULT').setName('DEFAULT')
     IMPORTS = Keyword('IMPORTS').setName('IMPORTS')
     EXPORTS = Keyword('EXPORTS').setName('EXPORTS')
@@ -877,26 +892,26 @@ def create_grammar():
     ENCODED_BY = Keyword('ENCODED_BY').setName('ENCODED_BY')
     IMPLICIT = Keyword('IMPLICIT').setName('IMPLICIT')
     EXPLICIT = Keyword('EXPLICIT').setName('EXPLICIT')
-    OBJECT_IDENTIFIER = Keyword('OBJECT IDENTIFIER').setName('OBJECT IDENTIFIER')
+    OBJECT_IDENTIFIER = MultiWordKeyword('OBJECT IDENTIFIER').setName('OBJECT IDENTIFIER')
     UNIVERSAL = Keyword('UNIVERSAL').setName('UNIVERSAL')
     APPLICATION = Keyword('APPLICATION').setName('APPLICATION')
     PRIVATE = Keyword('PRIVATE').setName('PRIVATE')
     SET = Keyword('SET').setName('SET')
-    ANY_DEFINED_BY = Keyword('ANY DEFINED BY').setName('ANY DEFINED BY')
-    EXTENSIBILITY_IMPLIED = Keyword('EXTENSIBILITY IMPLIED').setName(
+    ANY_DEFINED_BY = MultiWordKeyword('ANY DEFINED BY').setName('ANY DEFINED BY')
+    EXTENSIBILITY_IMPLIED = MultiWordKeyword('EXTENSIBILITY IMPLIED').setName(
         'EXTENSIBILITY IMPLIED')
     BOOLEAN = Keyword('BOOLEAN').setName('BOOLEAN')
     TRUE = Keyword('TRUE').setName('TRUE')
     FALSE = Keyword('FALSE').setName('FALSE')
     CLASS = Keyword('CLASS').setName('CLASS')
-    WITH_SYNTAX = Keyword('WITH SYNTAX').setName('WITH SYNTAX')
+    WITH_SYNTAX = MultiWordKeyword('WITH SYNTAX').setName('WITH SYNTAX')
     UNIQUE = Keyword('UNIQUE').setName('UNIQUE')
     NULL = Keyword('NULL').setName('NULL')
-    WITH_COMPONENT = Keyword('WITH COMPONENT').setName('WITH COMPONENT')
-    WITH_COMPONENTS = Keyword('WITH COMPONENTS').setName('WITH COMPONENTS')
-    WITH_SUCCESSORS = Keyword('WITH SUCCESSORS').setName('WITH SUCCESSORS')
-    WITH_DESCENDANTS = Keyword('WITH DESCENDANTS').setName('WITH DESCENDANTS')
-    COMPONENTS_OF = Keyword('COMPONENTS OF').setName('COMPONENTS OF')
+    WITH_COMPONENT = MultiWordKeyword('WITH COMPONENT').setName('WITH COMPONENT')
+    WITH_COMPONENTS = MultiWordKeyword('WITH COMPONENTS').setName('WITH COMPONENTS')
+    WITH_SUCCESSORS = MultiWordKeyword('WITH SUCCESSORS').setName('WITH SUCCESSORS')
+    WITH_DESCENDANTS = MultiWordKeyword('WITH DESCENDANTS').setName('WITH DESCENDANTS')
+    COMPONENTS_OF = MultiWordKeyword('COMPONENTS OF').setName('COMPONENTS OF')
     PRESENT = Keyword('PRESENT').setName('PRESENT')
     ABSENT = Keyword('ABSENT').setName('ABSENT')
     ALL = Keyword('ALL').setName('ALL')
@@ -905,7 +920,7 @@ def create_grammar():
     MAX = Keyword('MAX').setName('MAX')
     INCLUDES = Keyword('INCLUDES').setName('INCLUDES')
     PATTERN = Keyword('PATTERN').setName('PATTERN')
-    CONSTRAINED_BY = Keyword('CONSTRAINED BY').setName('CONSTRAINED BY')
+    CONSTRAINED_BY = MultiWordKeyword('CONSTRAINED BY').setName('CONSTRAINED BY')
     UNION = Keyword('UNION').setName('UNION')
     INTERSECTION = Keyword('INTERSECTION').setName('INTERSECTION')
     PLUS_INFINITY = Keyword('PLUS-INFINITY').setName('PLUS-INFINITY')
@@ -925,7 +940,7 @@ def create_grammar():
     UTF8String = Keyword('UTF8String').setName('UTF8String')
     VideotexString = Keyword('VideotexString').setName('VideotexString')
     VisibleString = Keyword('VisibleString').setName('VisibleString')
-    CHARACTER_STRING = Keyword('CHARACTER STRING').setName('CHARACTER STRING')
+    CHARACTER_STRING = MultiWordKeyword('CHARACTER STRING').setName('CHARACTER STRING')
 
     # Various literals.
     word = Word(printables, excludeChars=',(){}[].:=;"|').setName('word')
